@@ -102,6 +102,7 @@ class Rig:
         self.callbacks = []          # device objects in invocation order
         self.raise_on = set()        # invocation indices (0-based, sentinels not counted) on which the callback raises
         self.raise_salt = 0          # rotates the exception class raised
+        self.hook = None             # callable(device) run inside the user callback
         self.scribble = False        # the callback modifies the object it was handed (after the harness copied it)
         self.invocations = 0
         self.loop_errors = []
@@ -128,6 +129,8 @@ class Rig:
             return
         idx = self.invocations
         self.invocations += 1
+        if self.hook is not None:
+            self.hook(device)              # user code running inside the callback (its exceptions are caught by the hook)
         if self.scribble:
             # the application keeps working on what it was handed (optimistic state updates, renaming): what the NEXT
             # callback gets must not be affected.  The harness judges a copy taken before the scribbling.
